@@ -69,6 +69,22 @@ func (cs *c04xCase) build() (patch, file string) {
 			}
 		}
 		f.WriteString("\tpost()\n}\n")
+	case "plus-first":
+		// one call pattern with a single elision per side; the '+' line stands
+		// above the '-' line
+		line := func(name string) string {
+			var parts []string
+			for _, s := range cs.Pattern {
+				parts = append(parts, s)
+			}
+			return name + "(" + strings.Join(parts, ", ") + ")"
+		}
+		p.WriteString("@@\nvar x, y expression\n@@\n+" + line("tgq") + "\n-" + line("tgt") + "\n")
+		f.WriteString("package p\n\nfunc f() {\n")
+		for _, l := range cs.Lists {
+			f.WriteString("\ttgt(" + strings.Join(l, ", ") + ")\n")
+		}
+		f.WriteString("}\n")
 	case "long-list":
 		p.WriteString("@@\nvar x, y expression\n@@\n-tgt(\n+tgq(\n")
 		for _, s := range cs.Pattern {
@@ -252,6 +268,42 @@ func evalC04x(cs *c04xCase) (sig, msg string, nontrivial bool, note string) {
 			}
 		}
 		return "", "", nontrivial, ""
+	case "plus-first":
+		switch {
+		case r.Failed():
+			return "", "", false, "foreign:C08"
+		case r.ParseErr != "":
+			return "plus-first:rejected", fmt.Sprintf("gopatch rejects the pattern: %s\n%s", r.ParseErr, show()), false, ""
+		case r.ApplyErr != "":
+			return "plus-first:apply-error", fmt.Sprintf("Apply fails: %s\n%s", r.ApplyErr, show()), false, ""
+		}
+		got, err := c04xCalls(r.Out)
+		if err != nil {
+			return "", "", false, "foreign:C07"
+		}
+		if len(got) != len(cs.Lists) {
+			return "plus-first:statements", fmt.Sprintf("expected %d calls, got %d\n%s", len(cs.Lists), len(got), show()), false, ""
+		}
+		for i, l := range cs.Lists {
+			_, ok := c04xModel(cs.Pattern, l)
+			wantName, wantArgs := "tgt", strings.Join(l, ", ")
+			if ok {
+				// the plus side is the minus side under another callee:
+				// metavariables and the elided run reappear unchanged, so the
+				// arguments are those of the input
+				wantName = "tgq"
+				if len(l) > len(cs.Pattern)-1 {
+					nontrivial = true
+				}
+			}
+			if got[i][0] != wantName {
+				return "plus-first:match", fmt.Sprintf("list %d %v, pattern %v: model says match=%v, gopatch wrote %s(...)\n%s", i, l, cs.Pattern, ok, got[i][0], show()), nontrivial, ""
+			}
+			if got[i][1] != wantArgs {
+				return "plus-first:elided-run-lost", fmt.Sprintf("the only '...' of the '-' side and the only '...' of the '+' side belong together: list %d %v, pattern %v: expected arguments %q, got %q\n%s", i, l, cs.Pattern, wantArgs, got[i][1], show()), nontrivial, ""
+			}
+		}
+		return "", "", nontrivial, ""
 	case "long-list":
 		switch {
 		case r.Failed():
@@ -337,6 +389,22 @@ func c04xDraw(rt *rapid.T) *c04xCase {
 		if !hasChange {
 			cs.Lines[0].Prefix = "-"
 		}
+		return cs
+	}
+	if rapid.IntRange(0, 5).Draw(rt, "plusFirst") == 0 {
+		cs := &c04xCase{Mode: "plus-first"}
+		n := rapid.IntRange(1, 4).Draw(rt, "nLists")
+		for i := 0; i < n; i++ {
+			k := rapid.IntRange(0, 4).Draw(rt, fmt.Sprintf("len%d", i))
+			var l []string
+			for j := 0; j < k; j++ {
+				l = append(l, rapid.SampledFrom([]string{"a", "b", "1", "f(c)"}).Draw(rt, fmt.Sprintf("e%d_%d", i, j)))
+			}
+			cs.Lists = append(cs.Lists, l)
+		}
+		before := rapid.SampledFrom([][]string{{}, {"a"}, {"x"}, {"x", "b"}}).Draw(rt, "before")
+		after := rapid.SampledFrom([][]string{{}, {}, {"b"}, {"y"}}).Draw(rt, "after")
+		cs.Pattern = append(append(append([]string{}, before...), "..."), after...)
 		return cs
 	}
 	if rapid.IntRange(0, 2).Draw(rt, "deepPattern") == 0 {
